@@ -338,6 +338,46 @@ def check_L11(ctx, rep):
     if n_acc == 0:
         raise Broken('aggregators::mean: no accumulation found (fold with + / sum)')
 
+    # percentile: a rank over the *multiset* of inputs. The values are gathered in a duplicate-preserving sequence (no set, no
+    # dedup), that sequence is ordered, and one element is selected by rank.
+    b = fns['percentile']
+    SET_TYPES = ('collections::BTreeSet<', 'collections::HashSet<', 'hashbrown::HashSet<', 'collections::btree_set::', 'collections::hash_set::')
+    SORTS = ('::sort', '::sort_unstable', '::sort_by', '::sort_unstable_by', '::sort_by_key', '::sort_unstable_by_key', '::sort_by_cached_key',
+             '::select_nth_unstable', '::select_nth_unstable_by', '::select_nth_unstable_by_key', 'BinaryHeap::<T, A>::into_sorted_vec',
+             'Itertools::sorted', 'Itertools::sorted_unstable')
+    SELECTS = ('swap_remove', 'remove', 'get', 'select_nth_unstable', 'Iterator::nth', 'Iterator::skip', 'get_mut', 'into_sorted_vec')
+    n_sort = n_sel = 0
+    for n, parents in walk(b['tree']):
+        k = n.get('k')
+        ty = (cr.ty(n) or '') if k in ('mcall', 'call', 'let', 'path') else ''
+        ty0 = ty.replace('&mut ', '').replace('&', '')
+        if any(t in ty0 for t in SET_TYPES) and k in ('mcall', 'call'):
+            rep.inst('L11.percentile', 'percentile: values pass through %s' % ty0[:60])
+            rep.viol('L11', 'aggregators::percentile', 'multiset-collapsed',
+                     '`percentile` gathers the values in a set (%s): equal values collapse, the rank is taken over the distinct values '
+                     'instead of over all inputs' % ty0[:80], loc=cr.loc(n))
+            break
+        c = callee(n) if k in ('mcall', 'call') else None
+        if not c:
+            if k == 'index':
+                n_sel += 1
+                rep.inst('L11.percentile', 'percentile: selects by index []')
+            continue
+        nm = cname(c)
+        if nm.endswith(('::dedup', '::dedup_by', '::dedup_by_key', 'Itertools::unique', 'Itertools::dedup', 'Itertools::unique_by')):
+            rep.viol('L11', 'aggregators::percentile', 'multiset-collapsed',
+                     '`percentile` removes duplicate values (%s): the rank is taken over the distinct values' % nm, loc=cr.loc(n))
+        if nm.endswith(SORTS):
+            n_sort += 1
+            rep.inst('L11.percentile', 'percentile: ordered by %s' % nm.split('::')[-1])
+        if nm.endswith(SELECTS) and (n.get('a') or nm.endswith('into_sorted_vec')):
+            n_sel += 1
+            rep.inst('L11.percentile', 'percentile: selects by %s' % nm.split('::')[-1])
+    if n_sort == 0 and not any(v['construct'] == 'multiset-collapsed' for v in rep.violations):
+        raise Broken('aggregators::percentile: no ordering step recognised (sort*/select_nth_unstable*/into_sorted_vec/sorted)')
+    if n_sel == 0 and not any(v['construct'] == 'multiset-collapsed' for v in rep.violations):
+        raise Broken('aggregators::percentile: no rank selection recognised')
+
     # not: yields a unit exactly when next() is None
     b = fns['not']
     verdict = _eval_not(b)
